@@ -373,6 +373,13 @@ func (m *Message) GetClassAdRawBody(ctx context.Context, numExprs int) (string, 
 				return "", fmt.Errorf("failed to read secret expression %d (expected %d): %w", i, numExprs, err)
 			}
 		}
+		if exprStr == "" {
+			// An expression is never empty ("Attr = Value"). GetString returns an empty
+			// string once the message has ended, so without this check a truncated ad
+			// with a large expression count would keep this loop running (and growing b)
+			// long after the peer stopped sending.
+			return "", fmt.Errorf("empty expression %d (expected %d): message ended early", i, numExprs)
+		}
 		b.WriteString(exprStr)
 		b.WriteByte('\n')
 	}
